@@ -154,3 +154,30 @@ def read_frames(frames):
                 p['why'] = 'bad-placeholder'
         out.append(p)
     return out
+
+
+# ---------------------------------------------------------------- msgpack
+# The msgpack serializer (msgpack_packet.py) has no wire grammar of its own:
+# a packet is msgpack.dumps({'type', 'data', 'nsp'[, 'id']}), byte strings
+# stay in place.  Reference twin, independent of socketio:
+def mp_encode(ptype, ns=None, id=None, data=None):
+    import msgpack
+    d = {'type': ptype, 'data': data, 'nsp': ns if ns is not None else '/'}
+    if id is not None:
+        d['id'] = id
+    return [msgpack.dumps(d)]
+
+
+def mp_read_frames(frames):
+    import msgpack
+    out = []
+    for f in frames:
+        try:
+            d = msgpack.loads(f)
+            out.append({'type': d['type'], 'natt': 0,
+                        'ns': d.get('nsp') or '/', 'id': d.get('id'),
+                        'data': d.get('data')})
+        except Exception as e:
+            out.append({'type': 'BAD', 'why': 'msgpack:' + type(e).__name__,
+                        'ns': '/', 'id': None, 'data': None, 'natt': 0})
+    return out
